@@ -70,6 +70,11 @@ class DiskSink(Sink[Union[str,Sequence[str]]]):
         self._mode     = mode
         self._batch    = batch
 
+    def __getstate__(self):
+        #A copy for another process (a logger with this sink is sent to every background process that is started, possibly
+        #while another thread is in the middle of a write here) is a sink for the same file that has not opened it yet.
+        return {**self.__dict__, '_file': None, '_count': 0}
+
     def __enter__(self) -> 'DiskSink':
         self._count += 1
 
